@@ -74,7 +74,7 @@ def parse_vspec(path):
             # optional numeric arg
             mm = re.match(r"^(\d+|\*)\s*(.*)$", rest)
             if mm and kind in ("loop", "inv", "invxb", "loopensures", "loopdec", "body-start", "body-end",
-                               "before", "after", "replace", "block-end", "inherit", "closure-spec"):
+                               "before", "after", "replace", "block-end", "inherit", "closure-spec", "pre-loop", "rawloop"):
                 arg = 0 if mm.group(1) == "*" else int(mm.group(1))
                 rest = mm.group(2).strip()
             mt = re.match(r"^\[([^\]]*)\]\s*(.*)$", rest)
@@ -324,12 +324,15 @@ def weave_function(src_fn, spec, path, W, opts, meta):
                     spec.clauses.append(Clause("inv", c.arg, list(c2.tags), "inherited-%d-%s" % (src_loop, c2.name), c2.body, c2.src))
         loop_ids = sorted(set(c.arg for c in spec.clauses
                               if c.kind in ("loop", "inv", "invxb", "loopensures", "loopdec", "body-start",
-                                            "body-end")))
+                                            "body-end", "pre-loop")))
         for n in loop_ids:
             if n < 1 or n > len(loops):
                 raise ExtractError("%s: lost loop #%d (function has %d loops)" % (path, n, len(loops)))
             (kw, lo, lc) = loops[n - 1]
             label = [c for c in spec.of("loop") if c.arg == n]
+            # `--- pre-loop N`: ghost text right before loop N (placed by ordinal, not by the text of the header)
+            for hn, c in enumerate([c for c in spec.of("pre-loop") if c.arg == n], 1):
+                add(kw, "\n" + c.body + "\n", ob("hint", c, {"name": "pre-loop%d#%d[%s]" % (n, hn, ",".join(c.tags))}) if c.tags else None)
             desugared = None
             if label and label[0].name:
                 # `--- loop N it` : label for-loop iterator  `for x in it: EXPR`
@@ -555,7 +558,7 @@ def site_obligations(path, woven_text, contracted_names):
 
 
 # --------------------------------------------------------------------------- main assembly
-def rewrite_item_text(src, S, log, sites, is_fn=True, outline=None, keep_for=()):
+def rewrite_item_text(src, S, log, sites, is_fn=True, outline=None, keep_for=(), force_raw=()):
     src = rules.expand_local_macros(src, S.macros, log, outline)
     src = rules.drop_log_macros(src, log)
     src = rules.panics_to_obligations(src, log, sites)
@@ -564,7 +567,7 @@ def rewrite_item_text(src, S, log, sites, is_fn=True, outline=None, keep_for=())
     src = rules.clone_from_calls(src, log)
     src = rules.adapter_chains(src, log)
     src = rules.split_headers(src, log)
-    src = rules.loop_headers(src, log, keep_for)
+    src = rules.loop_headers(src, log, keep_for, force_raw)
     return src
 
 
@@ -736,7 +739,8 @@ def build(repo, contracts_dir, out_dir, vacuity=False, only=None):
                              "region_lines": dropped.count("\n") + 1, "replaced_with": rs["with"].strip()})
             sp0 = specs.get(spec_key)
             keep_for = set(c.arg for c in sp0.of("loop") if c.name) if sp0 else set()
-            txt = rewrite_item_text(txt, S, flog, sites, outline=cfg.get("outline_macros"), keep_for=keep_for)
+            force_raw = set(c.arg for c in sp0.of("rawloop")) if sp0 else set()
+            txt = rewrite_item_text(txt, S, flog, sites, outline=cfg.get("outline_macros"), keep_for=keep_for, force_raw=force_raw)
             txt = txt.replace("engine::", "") if toks is S.ltoks else txt
             for (a, b) in cfg.get("text_subst", {}).get(p, []):
                 if a not in txt:
